@@ -32,6 +32,7 @@ type propResult struct {
 	outOfReach []string
 	bounded []interface{}
 	smtBytes int
+	deadSites []string
 }
 
 type knownFinding struct {
@@ -122,6 +123,12 @@ func runProperty(pc *PropCfg, repo, verif, tier string, update bool) *propResult
 				}()
 				j.o.scriptText = j.u.script(j.o, true)
 				r.smtBytes += len(j.o.scriptText)
+				if !j.o.Cover {
+					// candidate search: opaque spec functions as plain definitions, other quantified facts dropped
+					j.u.concrete = true
+					j.o.candText = qfPart(j.u.script(j.o, true))
+					j.u.concrete = false
+				}
 			}()
 		}
 	}
@@ -134,6 +141,15 @@ func runProperty(pc *PropCfg, repo, verif, tier string, update bool) *propResult
 		for _, l := range strings.Split(string(raw), "\n") {
 			if l = strings.TrimSpace(l); l != "" {
 				expected[l] = true
+			}
+		}
+	}
+	deadBaseline := map[string]bool{}
+	deadPath := filepath.Join(verif, "props", pc.ID+".dead")
+	if raw, err := os.ReadFile(deadPath); err == nil {
+		for _, l := range strings.Split(string(raw), "\n") {
+			if l = strings.TrimSpace(l); l != "" {
+				deadBaseline[l] = true
 			}
 		}
 	}
@@ -154,7 +170,17 @@ func runProperty(pc *PropCfg, repo, verif, tier string, update bool) *propResult
 		if o.Cover {
 			r.nCover++
 			if o.Result == "unsat" {
-				// vacuous: preconditions contradictory or no return reachable
+				fine := strings.Contains(o.Name, ".return") && !strings.HasSuffix(o.Name, ".return") || strings.Contains(o.Name, ".after-call")
+				if fine {
+					// a single site is unreachable under the contracts: dead code, or (if it is new) a callee
+					// contract that contradicts the path
+					site := coverSite(o)
+					r.deadSites = append(r.deadSites, site)
+					if deadBaseline[site] || !strings.Contains(o.Name, ".after-call") {
+						continue
+					}
+				}
+				// vacuous: preconditions contradictory, no return reachable, or a callee contract contradicts its call site
 				r.nViol++
 				p := writeReplayNote(replayDir, o, "vacuity guard failed: "+o.Src)
 				r.lines = append(r.lines, fmt.Sprintf("VIOLATION property=%s replay=%s obligation=%s (vacuous contract) no-failing-input-found", pc.ID, p, o.Name))
@@ -230,6 +256,8 @@ func runProperty(pc *PropCfg, repo, verif, tier string, update bool) *propResult
 		}
 		sort.Strings(keep)
 		os.WriteFile(expPath, []byte(strings.Join(keep, "\n")+"\n"), 0o644)
+		sort.Strings(r.deadSites)
+		os.WriteFile(deadPath, []byte(strings.Join(r.deadSites, "\n")+"\n"), 0o644)
 	}
 	for k := range e.trustedUsed {
 		r.trusted[k] = true
@@ -278,6 +306,7 @@ func (r *propResult) ev() *evidence {
 		"out_of_reach":             r.outOfReach,
 		"smt_bytes_total":          r.smtBytes,
 		"bounded":                  r.pc.Bounded,
+		"unreachable_sites":        r.deadSites,
 	}
 	if r.samples == nil {
 		cov["samples"] = []interface{}{}
@@ -300,4 +329,18 @@ func writeReplayNote(dir string, o *Obligation, why string) string {
 	}
 	os.WriteFile(p, []byte(sb.String()), 0o644)
 	return p
+}
+
+// coverSite names an unreachable site independently of ordinals: function, kind, callee and source text.
+func coverSite(o *Obligation) string {
+	kind := "return"
+	callee := ""
+	if i := strings.Index(o.Name, ".after-call"); i >= 0 {
+		kind = "after-call"
+		rest := o.Name[i+len(".after-call"):]
+		if j := strings.Index(rest, "."); j >= 0 {
+			callee = rest[j+1:]
+		}
+	}
+	return o.Fn + " " + kind + " " + callee
 }
